@@ -19,6 +19,34 @@ def _dump(task: Dict[str, Any], payload: Dict[str, Any]) -> None:
     os.replace(tmp, task["result"])
 
 
+def _patch_bytestring_provider() -> None:
+    """Hypothesis 6.168's BytestringProvider.draw_integer reads `bits(max - min)` raw bits and retries until the RAW
+    value lies in [min, max] -- it never adds `min`, so integers(i, n) with i > n - i (every late step of the
+    Fisher-Yates shuffle behind st.permutations, integers(4, 9) -> only 4..7) loops until the buffer is exhausted and
+    the input is rejected.  Replace it by the intended offset form; the result is always inside [min, max], i.e.
+    inside the strategy's own domain."""
+    from hypothesis.internal.conjecture.providers import BytestringProvider
+
+    def draw_integer(self: Any, min_value: Any = None, max_value: Any = None, *, weights: Any = None,
+                     shrink_towards: int = 0) -> int:
+        if min_value is None and max_value is None:
+            min_value, max_value = -(2 ** 127), 2 ** 127 - 1
+        elif min_value is None:
+            min_value = max_value - 2 ** 64
+        elif max_value is None:
+            max_value = min_value + 2 ** 64
+        if min_value == max_value:
+            return min_value
+        span = max_value - min_value
+        bits = span.bit_length()
+        value = self._draw_bits(bits)
+        while value > span:
+            value = self._draw_bits(bits)
+        return min_value + value
+
+    BytestringProvider.draw_integer = draw_integer  # type: ignore[method-assign]
+
+
 def main(argv: List[str]) -> None:
     with open(argv[0], "rb") as fh:
         task = pickle.load(fh)
@@ -50,6 +78,7 @@ def main(argv: List[str]) -> None:
 
         from .core import Report
 
+        _patch_bytestring_provider()
         mod = importlib.import_module(task["module"])
         rep = Report()
         test = mod.covfuzz_test(task["target"], rep, task["extra"])
